@@ -126,6 +126,18 @@ def handle : Handler
       let rows ← ratListList? rows
       let bad := (List.range rows.length).filter fun i => !Spec.rowOK eps (rows.getD i [])
       some (if bad.isEmpty then "holds" else "fails rows=" ++ showList bad)) "bad-args"
+  -- rows of Propagation in the strong form: 1 when a labelled neighbour of positive weight exists, 0 otherwise
+  | "c13.spec_prop_rows", [n, m, ip, ix, dt, v, r, c, eps, labels, rows] => some <| Option.getD (do
+      let rt ← routed? n m ip ix dt "0" v r c
+      let eps ← rat? eps
+      let l ← intList? labels
+      let rows ← ratListList? rows
+      match rt with
+      | .error e => some (showErr e)
+      | .ok rt =>
+        let bad := (List.range l.length).filter fun i =>
+          !Spec.rowStrong eps (Spec.propReaches rt.adj l i) (rows.getD i [])
+        some (if rows.length == l.length && bad.isEmpty then "holds" else "fails rows=" ++ showList bad)) "bad-args"
   -- DiffusionClassifier
   | "c13.diff", [n, m, ip, ix, dt, fb, v, r, c, nit, cen] => some <| Option.getD (do
       let rt ← routed? n m ip ix dt fb v r c
@@ -175,6 +187,9 @@ def handle : Handler
             ("minus-one-iff-unreached", Spec.minusOneIff l o.reached),
             ("arg-max", argOK),
             ("rows", pr.all (Spec.rowOK eps)),
+            ("rows-sum-1-iff-reached", (List.range nn).all fun i =>
+              let reach := o.reached.getD i false
+              Spec.rowStrong eps (if cen then reach else reach && !(getRow o.temps i).all (· == 0)) (getRow pr i)),
             ("unreached-rows-null", zeroRows),
             ("probs-plain", plainOK),
             ("symmetric-input", !sym || (List.range nn).all fun i => (List.range nn).all fun j =>
@@ -213,6 +228,7 @@ def handle : Handler
         ("labels-in-seed-set", Spec.labelsOK vals l),
         ("seeds-kept", Spec.seedsKept vals l),
         ("rows", pr.all (Spec.rowOK eps)),
+        ("rows-sum-1", kk == 0 || pr.all (Spec.rowStrong eps true)),
         ("nearest-neighbours", rowsOK),
         ("arg-max", argOK)])) "bad-args"
   -- RankClassifier.fit after the scores
@@ -222,7 +238,8 @@ def handle : Handler
       match Rank.fitCore vals sc with
       | .error e => some (showErr e)
       | .ok o => some s!"ok {showList o.labels} {showMat o.probs}") "bad-args"
-  | "c13.spec_rank", [values, eps, labels, probs] => some <| Option.getD (do
+  | "c13.spec_rank", [values, eps, labels, probs, scores] => some <| Option.getD (do
+      let sc ← ratListList? scores
       let vals ← intList? values
       let eps ← rat? eps
       let l ← intList? labels
@@ -235,6 +252,8 @@ def handle : Handler
         ("length", l.length == vals.length && pr.length == vals.length),
         ("labels-in-seed-set", Spec.labelsOK vals l && l.all (· != -1)),
         ("rows", pr.all (Spec.rowOK eps)),
+        ("rows-sum-1-unless-null-scores", (List.range vals.length).all fun i =>
+          Spec.rowStrong eps (!(getRow sc i).all (· == 0)) (getRow pr i)),
         ("arg-max", argOK)])) "bad-args"
   -- NNLinker._fit_core on a given embedding
   | "c13.link", [emb, mask, k, thr] => some <| Option.getD (do
